@@ -124,6 +124,7 @@ class Built:
         self.constructs = set()
         self.functions = set()
         self.notes = []
+        self.extras = {}
 
 
 def build(tp: Template, cfg: Cfg) -> Built:
@@ -143,6 +144,8 @@ def build(tp: Template, cfg: Cfg) -> Built:
         try:
             rts = [R.RTable.source(b.world, name, b.syms[name]) for name, _ in tp.sources]
             rt = prog(R.RefAPI, *rts)
+            if isinstance(rt, tuple):
+                rt, b.extras["ref" + sfx] = rt
             b.rel["ref" + sfx] = rt._out()
             b.__dict__["ref_table" + sfx] = rt
             b.status["ref" + sfx] = "ok"
@@ -161,6 +164,8 @@ def build(tp: Template, cfg: Cfg) -> Built:
                 key = "polars" + sfx
                 try:
                     tbl = prog(RL.RealAPI, *RL.polars_tables(tp.sources, frames))
+                    if isinstance(tbl, tuple):
+                        tbl, b.extras[key] = tbl
                     b.meta_cols[key] = _meta(tbl)
                     plan = RL.plan_json(tbl)
                     b.artefact[key] = plan
@@ -180,6 +185,8 @@ def build(tp: Template, cfg: Cfg) -> Built:
                 try:
                     eng = RL.sqlite_engine(tp.sources, frames)
                     tbl = prog(RL.RealAPI, *RL.sqlite_tables(tp.sources, eng))
+                    if isinstance(tbl, tuple):
+                        tbl, b.extras[key] = tbl
                     b.meta_cols[key] = _meta(tbl)
                     sql = RL.sql_text(tbl)
                     b.artefact[key] = sql
@@ -334,6 +341,8 @@ def run_real(tp: Template, prog, backend, inputs):
         eng = RL.sqlite_engine(tp.sources, frames)
         tbls = RL.sqlite_tables(tp.sources, eng)
     out = prog(RL.RealAPI, *tbls)
+    if isinstance(out, tuple):
+        out = out[0]
     names, rows, df = RL.export_rows(out)
     return names, rows
 
@@ -490,6 +499,12 @@ def _structural(tp: Template, b: Built) -> list[Obl]:
         o.status = "structural-ok" if ok else "structural-fail"
         o.detail = {"polars": b.rel["polars"].names, "sqlite": b.rel["sqlite"].names}
         out.append(o)
+    for be in ("polars", "sqlite"):
+        if be in b.extras and "ref" in b.extras:
+            o = Obl(tp.name, f"extras:{be}=ref")
+            o.status = "structural-ok" if list(b.extras[be]) == list(b.extras["ref"]) else "structural-fail"
+            o.detail = {be: b.extras[be], "ref": b.extras["ref"]}
+            out.append(o)
     if rt is not None and b.status.get("polars") == "ok":
         o = Obl(tp.name, "names:polars~ref")
         refn = rt._names()
@@ -553,6 +568,50 @@ def validate_models(tp: Template, b: Built, cfg: Cfg, rng: random.Random) -> lis
     return out
 
 
+def fallback_concrete(tp: Template, b: Built, cfg: Cfg, rng: random.Random, be: str) -> Obl:
+    """DESIGN 6.4: the artefact of backend `be` is outside the interpreters' grammar, so
+    the solver cannot decide the template.  So that a gross discrepancy is still seen, the
+    real backend is run on random concrete tables inside DEF and compared with REF
+    evaluated on the same tables.  NOT solver-decided; counted separately."""
+    o = Obl(tp.name, f"fallback:{be}≡ref")
+    rt = b.__dict__.get("ref_table")
+    if rt is None:
+        o.status = "skipped:no-ref"
+        return o
+    ref_rel = b.rel["ref"]
+    tried = 0
+    for _ in range(max(6, 3 * cfg.validate_samples)):
+        inputs = {name: random_rows(schema, b.syms[name].nmax, rng, tp) for name, schema in tp.sources}
+        subs = []
+        for name, _ in tp.sources:
+            subs += b.syms[name].substitution(inputs[name])
+        try:
+            if not all(z3.is_true(z3.simplify(z3.substitute(c, *subs))) for _, c in b.world.defs):
+                continue
+            ref_rows = K.concrete_rows(ref_rel, subs, ordered=False)
+        except Exception:  # noqa: BLE001
+            continue
+        tried += 1
+        try:
+            names, rows = run_real(tp, tp.prog, be, inputs)
+        except Exception as e:  # noqa: BLE001
+            o.status = "engine-error"
+            o.detail = {"inputs": inputs, "error": f"{type(e).__name__}: {str(e)[:300]}", "not_solver_decided": True}
+            return o
+        ok = set(names) == set(ref_rel.names)
+        if ok:
+            idx = [names.index(n) for n in ref_rel.names]
+            rows = [tuple(r[i] for i in idx) for r in rows]
+            ok = same_rows(rows, ref_rows, False)
+        if not ok:
+            o.status = "violation"
+            o.detail = {"inputs": inputs, be: rows, "ref": ref_rows, "names": names, "not_solver_decided": True}
+            return o
+    o.status = "fallback-agrees"
+    o.detail = {"tried": tried, "not_solver_decided": True}
+    return o
+
+
 def random_rows(schema, nmax, rng, tp: Template):
     n = rng.randint(0, nmax)
     rows = []
@@ -609,6 +668,9 @@ def analyse(tp: Template, cfg: Cfg, *, known=None) -> dict:
                 if tp.mode == "ref":
                     for be in tp.backends:
                         obls += check_pair(tp, b, cfg, be, "ref", want_seq=tp.seq, known=known)
+                    if tp.prog2 is not None:
+                        for be in tp.backends:
+                            obls += check_pair(tp, b, cfg, be, be + "2", want_seq=tp.seq, known=known)
                 if len(tp.backends) == 2:
                     obls += check_pair(tp, b, cfg, "polars", "sqlite", want_seq=tp.seq, known=known)
                 for be in tp.backends:
@@ -618,6 +680,9 @@ def analyse(tp: Template, cfg: Cfg, *, known=None) -> dict:
             obls += structural(tp, b)
         if cfg.validate_samples:
             obls += validate_models(tp, b, cfg, rng)
+        for be in tp.backends:
+            if str(b.status.get(be, "")).startswith("unsupported") and b.status.get("ref") == "ok":
+                obls.append(fallback_concrete(tp, b, cfg, rng, be))
     except Exception as e:  # noqa: BLE001
         obls.append(Obl(tp.name, "analyse", f"harness-error:{type(e).__name__}:{e}", detail=traceback.format_exc()))
     arte = {}
